@@ -3,6 +3,7 @@
 package exec
 
 import (
+	"github.com/grailbio/bigmachine"
 	zz "github.com/grailbio/bigslice/internal/zzverif"
 )
 
@@ -170,5 +171,39 @@ func zzScheduleHarness(maxR, maxM int) {
 	}
 	if nr >= 2 && nm >= 2 {
 		zz.Reach("two or more of each")
+	}
+}
+
+// zzSystem is a model bigmachine.System reporting an arbitrary Maxprocs.
+type zzSystem struct {
+	bigmachine.System
+	maxprocs int
+}
+
+func (s *zzSystem) Maxprocs() int { return s.maxprocs }
+
+var zzTheSystem *zzSystem
+
+func zzStubBSystem(b *bigmachine.B) bigmachine.System { return zzTheSystem }
+
+// zzH_C14_managerCapacity: a machine's task capacity is the max-load share of
+// its procs and at least one, for every machine size and every max-load in
+// [0,1]; with max-load 0 the parallelism limit is converted to whole machines.
+func zzH_C14_managerCapacity() {
+	mp := zz.AnyInt("maxprocs")
+	zz.Assume(zz.And(mp >= 1, mp <= 1<<16))
+	load := zz.AnyFloat64("maxLoad")
+	zz.Assume(zz.And(load >= 0, load <= 1))
+	maxp := zz.AnyInt("parallelism")
+	zz.Assume(zz.And(maxp >= 1, maxp <= 1<<20))
+	zzTheSystem = &zzSystem{maxprocs: mp}
+	m := newMachineManager(&bigmachine.B{}, nil, nil, maxp, load, nil)
+	zz.Assert(m.machprocs >= 1, "every machine can run at least one task proc")
+	zz.Assert(m.machprocs <= mp, "task capacity never exceeds the machine's procs")
+	if m.machprocs > 1 {
+		zz.Reach("fractional capacity")
+		zz.Assert(m.maxp == maxp, "the parallelism limit is kept when machines are shared")
+	} else {
+		zz.Reach("capacity one")
 	}
 }
